@@ -34,13 +34,14 @@ type chResp struct {
 }
 
 type chFetch struct {
-	Key    string
-	Serial uint32
-	TRecv  int64 // query arrived at the upstream
-	TSend  int64 // reply handed to the socket (0 = none)
-	Rcode  int
-	TC     bool
-	Kind   string
+	Key     string
+	Serial  uint32
+	TRecv   int64 // query arrived at the upstream
+	TSend   int64 // reply handed to the socket (0 = none)
+	Rcode   int
+	TC      bool
+	Kind    string
+	ConnEnd int64 // when the proxy closed the connection this query arrived on (0 = not closed)
 }
 
 type chHist struct {
@@ -96,7 +97,7 @@ func fetchesOf(b *Bed, tag string) map[string][]*chFetch {
 			continue
 		}
 		k := chKey(ql.Name, ql.Qtype, ql.Qclass)
-		out[k] = append(out[k], &chFetch{Key: k, Serial: ql.Serial, TRecv: ql.TRecv, TSend: ql.TSend, Rcode: ql.Rcode, TC: ql.TC, Kind: ql.Kind})
+		out[k] = append(out[k], &chFetch{Key: k, Serial: ql.Serial, TRecv: ql.TRecv, TSend: ql.TSend, Rcode: ql.Rcode, TC: ql.TC, Kind: ql.Kind, ConnEnd: b.Up[tag].ConnEndedAt(ql.Conn)})
 	}
 	for _, fs := range out {
 		sort.Slice(fs, func(i, j int) bool { return fs[i].TRecv < fs[j].TRecv })
